@@ -3,6 +3,7 @@ package props
 import (
 	"fmt"
 	"sort"
+	"strconv"
 	"strings"
 	"time"
 
@@ -13,6 +14,7 @@ import (
 	"verifsim/core"
 	"verifsim/env"
 	"verifsim/modelredis"
+	"verifsim/simnet"
 )
 
 // C13 — key filtering rewrites multi-key commands without corrupting them.
@@ -149,37 +151,51 @@ func runC13(c *core.Ctx) *core.Violation {
 		want   [][]byte
 		drop   bool
 	}
+	twoSources := t.Choose(3) == 2
 	var insts []inst
 	var stream []byte
 	uniq := 0
-	stream = append(stream, respCmd(bs("SELECT", "0")...)...)
-	for i := 0; i < ncmd; i++ {
-		var name string
-		if t.Choose(5) == 4 {
-			name = []string{"flushall", "publish", "xadd", "sort", "zunionstore"}[t.Choose(5)] // not key-addressed in the table: unchanged
-		} else {
-			name = names[t.Choose(len(names))]
-		}
-		in := inst{name: name}
-		if sp, ok := redisKeySpecs[name]; ok && func() bool { _, in := filter.RedisCommands[name]; return in }() {
-			in.args, in.keyPos = genKeyed(c, name, sp, &uniq)
-			in.want, in.drop = expectRewrite(in.args, in.keyPos, sp.step, passes)
-		} else {
-			n := 1 + t.Choose(4)
-			for k := 0; k < n; k++ {
-				uniq++
-				in.args = append(in.args, []byte(fmt.Sprintf("f:x%d", uniq)))
+	genStream := func() ([]inst, []byte) {
+		var insts []inst
+		var stream []byte
+		stream = append(stream, respCmd(bs("SELECT", "0")...)...)
+		for i := 0; i < ncmd; i++ {
+			var name string
+			if t.Choose(5) == 4 {
+				name = []string{"flushall", "publish", "xadd", "sort", "zunionstore"}[t.Choose(5)] // not key-addressed in the table: unchanged
+			} else {
+				name = names[t.Choose(len(names))]
 			}
-			in.want = in.args
+			in := inst{name: name}
+			if sp, ok := redisKeySpecs[name]; ok && func() bool { _, in := filter.RedisCommands[name]; return in }() {
+				in.args, in.keyPos = genKeyed(c, name, sp, &uniq)
+				in.want, in.drop = expectRewrite(in.args, in.keyPos, sp.step, passes)
+			} else {
+				n := 1 + t.Choose(4)
+				for k := 0; k < n; k++ {
+					uniq++
+					in.args = append(in.args, []byte(fmt.Sprintf("f:x%d", uniq)))
+				}
+				in.want = in.args
+			}
+			nm := name
+			if t.Choose(3) == 2 {
+				nm = strings.ToUpper(name)
+			}
+			stream = append(stream, respCmd(append([][]byte{[]byte(nm)}, in.args...)...)...)
+			insts = append(insts, in)
 		}
-		nm := name
-		if t.Choose(3) == 2 {
-			nm = strings.ToUpper(name)
-		}
-		stream = append(stream, respCmd(append([][]byte{[]byte(nm)}, in.args...)...)...)
-		insts = append(insts, in)
+		return insts, stream
 	}
-	c.Sample = map[string]interface{}{"mode": []string{"whitelist p:", "blacklist f:", "no key filter"}[mode], "commands": ncmd,
+	insts, stream = genStream()
+	var insts2 []inst
+	var stream2 []byte
+	if twoSources {
+		// a second source node synced by a second DbSyncer of the same process, at the same time
+		uniq = 500000
+		insts2, stream2 = genStream()
+	}
+	c.Sample = map[string]interface{}{"two_sources": twoSources, "mode": []string{"whitelist p:", "blacklist f:", "no key filter"}[mode], "commands": ncmd,
 		"first": func() string {
 			s := ""
 			for i := 0; i < 3 && i < len(insts); i++ {
@@ -198,14 +214,40 @@ func runC13(c *core.Ctx) *core.Violation {
 		}
 		e.Src.Stream = stream
 		e.Src.RDB, _ = smallRDB(t, 0)
-		e.StartTool()
 		nwant := 0
 		for _, in := range insts {
 			if !in.drop {
 				nwant++
 			}
 		}
-		e.WaitUntil(30*time.Second, 100*time.Millisecond, func() bool { return len(e.IncrLog()) >= nwant })
+		if twoSources {
+			m := e.AddSource()
+			m.Stream = stream2
+			m.RDB, _ = smallRDB(t, 0)
+			if t.Choose(2) == 1 {
+				// the second stream trickles so that the two parsers keep meeting
+				p := simnet.Profile{Split: 600, Latency: 600, MaxDelayMs: 1 + t.Choose(30), ShortRead: 200}
+				m.L.ToClient = p
+				e.Src.L.ToClient = p
+			}
+			for _, in := range insts2 {
+				if !in.drop {
+					nwant++
+				}
+			}
+		}
+		e.StartTool()
+		e.WaitUntil(30*time.Second, 100*time.Millisecond, func() bool {
+			if !twoSources {
+				return len(e.IncrLog()) >= nwant
+			}
+			n := 0
+			_, by := e.CommandsByConn()
+			for _, l := range by {
+				n += len(l)
+			}
+			return n >= nwant
+		})
 		s.Sleep(1200 * time.Millisecond)
 		diag = e.Diag()
 	})
@@ -217,44 +259,84 @@ func runC13(c *core.Ctx) *core.Violation {
 	if e.Tool.Exited {
 		return core.Violate("abort", "err="+env.ErrClass(lc.LastPanic()), "the tool aborted: %s", lc.LastPanic())
 	}
-	got := e.IncrLog()
-	gi := 0
-	for _, in := range insts {
-		site := "cmd=" + in.name
-		var g *modelredis.Applied
-		if gi < len(got) && strings.EqualFold(got[gi].Name(), in.name) {
-			g = &got[gi]
-		}
-		if in.drop {
-			// must not be forwarded: if the next received command has this name and mentions one of its arguments, it leaked
-			var ks [][]byte
-			for _, p := range in.keyPos {
-				ks = append(ks, in.args[p])
+	judge := func(got []modelredis.Applied, insts []inst) *core.Violation {
+		gi := 0
+		for _, in := range insts {
+			site := "cmd=" + in.name
+			var g *modelredis.Applied
+			if gi < len(got) && strings.EqualFold(got[gi].Name(), in.name) {
+				g = &got[gi]
 			}
-			if g != nil && len(ks) > 0 && mentions(g.Args[1:], ks) {
-				return core.Violate("forwarded-although-no-key-passes", site, "%s %s has no passing key but the target received %s", in.name, fmtArgs(in.args), fmtArgs(g.Args))
+			if in.drop {
+				// must not be forwarded: if the next received command has this name and mentions one of its arguments, it leaked
+				var ks [][]byte
+				for _, p := range in.keyPos {
+					ks = append(ks, in.args[p])
+				}
+				if g != nil && len(ks) > 0 && mentions(g.Args[1:], ks) {
+					return core.Violate("forwarded-although-no-key-passes", site, "%s %s has no passing key but the target received %s", in.name, fmtArgs(in.args), fmtArgs(g.Args))
+				}
+				continue
 			}
-			continue
-		}
-		if g == nil {
-			next := "nothing"
-			if gi < len(got) {
-				next = fmtArgs(got[gi].Args)
+			if g == nil {
+				next := "nothing"
+				if gi < len(got) {
+					next = fmtArgs(got[gi].Args)
+				}
+				return core.Violate("dropped-although-key-passes", site, "%s %s has a passing key and should arrive as %s, the target received %s instead", in.name, fmtArgs(in.args), fmtArgs(in.want), next)
 			}
-			return core.Violate("dropped-although-key-passes", site, "%s %s has a passing key and should arrive as %s, the target received %s instead", in.name, fmtArgs(in.args), fmtArgs(in.want), next)
+			gi++
+			if !sameArgs(g.Args[1:], in.want) {
+				return core.Violate("rewritten-wrongly", site+","+classify(g.Args[1:], in.want, in.args), "%s %s should arrive as %s, the target received %s", in.name, fmtArgs(in.args), fmtArgs(in.want), fmtArgs(g.Args[1:]))
+			}
+			if len(in.keyPos) > 1 {
+				c.Probe("multi_key_command")
+			}
 		}
-		gi++
-		if !sameArgs(g.Args[1:], in.want) {
-			return core.Violate("rewritten-wrongly", site+","+classify(g.Args[1:], in.want, in.args), "%s %s should arrive as %s, the target received %s", in.name, fmtArgs(in.args), fmtArgs(in.want), fmtArgs(g.Args[1:]))
+		if gi < len(got) {
+			return core.Violate("extra-command", "cmd="+got[gi].Name(), "the target received %s, which no source command explains", fmtArgs(got[gi].Args))
 		}
-		if len(in.keyPos) > 1 {
-			c.Probe("multi_key_command")
-		}
-	}
-	if gi < len(got) {
-		return core.Violate("extra-command", "cmd="+got[gi].Name(), "the target received %s, which no source command explains", fmtArgs(got[gi].Args))
+		return nil
 	}
 	c.Nontrivial = true
+	if !twoSources {
+		return judge(e.IncrLog(), insts)
+	}
+	// two syncers: each writes over its own connection; every connection's commands must be exactly one source's
+	// expected sequence (keys of the two sources are disjoint, so the first key argument tells whose it is)
+	c.Probe("two_sources")
+	ids, by := e.CommandsByConn()
+	var from [2][]modelredis.Applied
+	for _, id := range ids {
+		l := by[id]
+		who := 0
+		for _, a := range l {
+			hit := false
+			for _, x := range a.Args[1:] {
+				if i := strings.LastIndexAny(string(x), "yx"); i >= 0 { // ...key<N> / f:x<N>
+					if n, err := strconv.Atoi(string(x[i+1:])); err == nil {
+						if n > 500000 {
+							who = 1
+						}
+						hit = true
+						break
+					}
+				}
+			}
+			if hit {
+				break
+			}
+		}
+		from[who] = append(from[who], l...)
+	}
+	if v := judge(from[0], insts); v != nil {
+		v.Site += ",two-sources"
+		return v
+	}
+	if v := judge(from[1], insts2); v != nil {
+		v.Site += ",two-sources"
+		return v
+	}
 	return nil
 }
 
@@ -324,6 +406,6 @@ func init() {
 			"a command in the tool's table for which the check has no documented key specification is reported, not skipped",
 		},
 		RealVsStub: "real: filter.HandleFilterKeyWithCommand/getMatchKeys/FilterKey via dbSync.parseSourceCommand, sender, redigo; simulated: TCP, master/target models, clock, scheduling",
-		ProbeNames: []string{"multi_key_command"},
+		ProbeNames: []string{"two_sources", "multi_key_command"},
 	})
 }
